@@ -461,7 +461,13 @@ class Impl:
         self.slots[int(dst)] = self.G(src).to_directed(); return "ok"
 
     def op_toundir(self, src, dst, recip):
-        self.slots[int(dst)] = self.G(src).to_undirected(reciprocal=bool(int(recip))); return "ok"
+        # the signature is to_undirected(reciprocal=False): the flag is given by keyword, positionally, or left out
+        G = self.G(src)
+        if int(recip):
+            H = G.to_undirected(reciprocal=True) if len(G._node) % 2 else G.to_undirected(True)
+        else:
+            H = G.to_undirected() if len(G._node) % 2 else G.to_undirected(False)
+        self.slots[int(dst)] = H; return "ok"
 
     def op_isol(self, src, kind):
         """isolation of a conversion result: nested mutable attributes are set on G (graph and node
@@ -686,6 +692,19 @@ class Impl:
         d = json.loads(json.dumps(node_link_data(G, attrs=at)))
         if any((at["id"] != "id" and "id" in n) or at["id"] not in n for n in d["nodes"]):
             return "custom-id-ignored"
+        # attribute names are data: blanks around a name, an empty name, non-ASCII names come back as they were
+        import copy
+        G2 = copy.deepcopy(G)
+        odd = {"weight ": 0.5, " group": "x", "": 1, "\u00e9t\u00e9": [1, 2], "a": 3}
+        for n in list(G2._node)[:2]:
+            G2._node[n].update(odd)
+        G2.graph["note "] = "kept"
+        H2 = node_link_graph(json.loads(json.dumps(node_link_data(G2))))
+        for n in list(G2._node)[:2]:
+            if H2._node[n] != G2._node[n]:
+                return "attribute-names-changed"
+        if H2.graph != G2.graph:
+            return "graph-attribute-names-changed"
         self.slots[int(dst)] = node_link_graph(d, attrs=at)
         return "ok"
 
@@ -1059,11 +1078,9 @@ class Impl:
         PT = ["shortest", "fastest", "foremost", "fastest_shortest", "shortest_fastest"][int(ptype)]
         return self._conf_out(delta_conformity(G, int(start), int(delta), alphas, ["L%d" % l for l in labels], profile_size=int(psize), path_type=PT))
 
-    def op_confh(self, s, start, delta, ptype, psize, *rest):
-        """delta_conformity with time-varying labels and hierarchies:
-        confh slot start delta ptype psize | nl l.. | na a.. | nhl l.. | nh (l v rank).. | ns (n l v).. | ndp (n l).. | nd (n l t v).."""
+    def _hier_tables(self, s, rest):
+        """the tables of confh / sconfh -> (graph copy with the label attributes, labels, alphas, hierarchies dictionary)"""
         import copy
-        from dynetx.algorithms.assortativity import delta_conformity
         rest = list(rest)
 
         def grab(w):
@@ -1087,9 +1104,28 @@ class Impl:
         hier = {"L%d" % l: {} for l in hlabels}
         for l, v, r in htr:
             hier["L%d" % l].setdefault(v, r)
-        PT = ["shortest", "fastest", "foremost", "fastest_shortest", "shortest_fastest"][int(ptype)]
-        return self._conf_out(delta_conformity(G, int(start), int(delta), alphas, ["L%d" % l for l in labels], profile_size=int(psize),
-                                               hierarchies=(hier if hier or int(start) % 2 else None), path_type=PT))
+        return G, ["L%d" % l for l in labels], alphas, hier
+
+    PT = ["shortest", "fastest", "foremost", "fastest_shortest", "shortest_fastest"]
+
+    def op_confh(self, s, start, delta, ptype, psize, *rest):
+        """delta_conformity with time-varying labels and hierarchies:
+        confh slot start delta ptype psize | nl l.. | na a.. | nhl l.. | nh (l v rank).. | ns (n l v).. | ndp (n l).. | nd (n l t v).."""
+        from dynetx.algorithms.assortativity import delta_conformity
+        G, labels, alphas, hier = self._hier_tables(s, rest)
+        return self._conf_out(delta_conformity(G, int(start), int(delta), alphas, labels, profile_size=int(psize),
+                                               hierarchies=(hier if hier or int(start) % 2 else None), path_type=self.PT[int(ptype)]))
+
+    def op_sconfh(self, s, delta, ptype, psize, *rest):
+        """sliding_delta_conformity with the same tables; ONE hierarchies dictionary serves all the windows, as a caller's would"""
+        from dynetx.algorithms.assortativity import sliding_delta_conformity
+        G, labels, alphas, hier = self._hier_tables(s, rest)
+        res = sliding_delta_conformity(G, int(delta), alphas, labels, profile_size=int(psize), hierarchies=(hier or None),
+                                       path_type=self.PT[int(ptype)])
+        out = {}
+        for a, prof in res.items():
+            out[a] = {p: sorted([self.C(n), [[t, self.fl(x)] for t, x in seq]] for n, seq in sc.items()) for p, sc in prof.items()}
+        return out
 
     def op_sconf(self, s, delta, ptype, k, *alphas):
         from dynetx.algorithms.assortativity import sliding_delta_conformity
